@@ -724,7 +724,11 @@ def _cosmic_ray(shape, pixelscale, alpha_flux, proton_flux):
 
         row = int(np.floor(ray[i+1][0]))
         col = int(np.floor(ray[i+1][1]))
-        img[row, col] += electron_flux*dist
+        # the intersections are computed in single precision: the end point of a
+        # ray can round onto a grid plane the ray never reaches, one pixel
+        # outside of the frame (no charge is collected there)
+        if 0 <= row < shape[0] and 0 <= col < shape[1]:
+            img[row, col] += electron_flux*dist
 
     return img
 
